@@ -1,5 +1,5 @@
 """C01 — emu-sv noiseless dynamics (structural clauses)."""
-from ..rules import drivers, step
+from ..rules import drivers, step, axes
 
 META = {
     "title": "emu-sv noiseless runs reproduce the Pulser Hamiltonian dynamics",
@@ -39,3 +39,4 @@ def check(ctx):
     drivers.sv_current_hamiltonian(ctx)
     drivers.sv_solver_table(ctx)
     drivers.adapter_column_order(ctx)
+    axes.diagonal_builders(ctx)
